@@ -12,6 +12,11 @@ fn main() {
         "c13" => pv::c13::run(&args),
         "c18" => pv::c18::run(&args),
         "c05" => pv::c05::run(&args),
+        "c06" => pv::connrun::run_c06(&args),
+        "c01" => pv::connrun::run_c01(&args),
+        "c02" => pv::connrun::run_c02(&args),
+        "c03" => pv::connrun::run_c03(&args),
+        "c10" => pv::connrun::run_c10(&args),
         other => {
             eprintln!("unknown runner {other}");
             std::process::exit(2);
